@@ -12,7 +12,7 @@ import shutil
 import traceback
 from typing import Any, Dict, List, Optional
 
-from vlib import gen, ref, sut_compiler, sut_py
+from vlib import harness, gen, ref, sut_compiler, sut_py
 from vlib.gen import GenCfg
 from vlib.harness import Ctx
 from vlib.model import Arr, Enum, File, Message, Ref, iter_defs, messages_of, strip_alias
@@ -129,8 +129,7 @@ def run_cases(ctx: Ctx, n_cases: int, n_values: int, judge: Dict[str, bool]) -> 
                 comp = sut_compiler.compile_schema(root, d, ["py"], rng=rng,
                                                    emit_kw=dict(semi=0.3, comments=0.2, blanks=0.2, path_style="random"))
             except Exception as e:
-                res.count("skipped_compile_error")
-                res.observe("compile_error_classes", type(e).__name__)
+                harness.compile_failed(res, e, wit)
                 continue
             wit["schema"] = describe(root, comp["paths"])
             try:
